@@ -16,6 +16,13 @@ def sitesOf (t : List (String × List String)) (m : String) : Option (List Strin
 def agree (mods : List String) : Bool :=
   mods.all (fun m => (sitesOf Gen.puritySites m).isSome && sitesOf Gen.puritySites m == sitesOf Contract.puritySites m)
 
+/-- the public surface: every entry of the contract table `m` (a signature with its parameter names, order and
+    defaults; a constant with its value) is still an entry of the regenerated table (further entries are allowed) -/
+def covers (tables : List String) : Bool :=
+  tables.all (fun m => match sitesOf Contract.puritySites m, sitesOf Gen.puritySites m with
+    | some c, some g => c.all (fun s => g.contains s)
+    | _, _ => false)
+
 /-- the sites of a module that are *state* (everything but imports, asserts and environment reads) -/
 def stateSites (t : List (String × List String)) (m : String) : List String :=
   ((sitesOf t m).getD []).filter (fun s =>
